@@ -1,11 +1,281 @@
 /-
-Judging of the query classes added after the core: line iterator, shape queries, Voronoi view,
-interpolation weights, add_constraint_and_split, refine.
+Specs and judging of the query classes beyond the core: line iterator (C17), shape queries (C16),
+Voronoi view (C18), interpolation weights (C19), add_constraint_and_split (C13), refine (C20).
+Every spec is a decidable `Prop` over the dumped state; the judge evaluates `decide`.
 -/
 import Spade.Judge
 namespace Spade
 
-def judgeExtra (hNew _hOld : HCtx) (_op _res : Array String) (_dump : Option St) : HCtx × List Fail :=
-  (hNew, [])
+/-! ### C17 line iterator -/
+
+inductive LItem where
+  | cross (e : Nat)
+  | vert (v : Nat)
+  | overlap (e : Nat)
+deriving DecidableEq, Repr, Inhabited
+
+def parseItem (t : String) : Option LItem :=
+  match t.toList with
+  | 'x' :: r => (String.ofList r).toNat?.map .cross
+  | 'v' :: r => (String.ofList r).toNat?.map .vert
+  | 'o' :: r => (String.ofList r).toNat?.map .overlap
+  | _ => none
+
+namespace St
+variable (s : St)
+
+/-- the undirected edge `2u` is properly crossed by the open segment `p q` -/
+def edgeCrossed (p q : Pt) (u : Nat) : Prop := ProperCross p q (s.A (2 * u)) (s.B (2 * u))
+/-- an end point of the query segment lies in the relative interior of the edge (don't-care) -/
+def edgeTouchedByEnd (p q : Pt) (u : Nat) : Prop :=
+  OnOpenSeg (s.A (2 * u)) (s.B (2 * u)) p ∨ OnOpenSeg (s.A (2 * u)) (s.B (2 * u)) q
+/-- the edge lies on the supporting line and both its end points are on the closed segment -/
+def edgeFullyOverlapped (p q : Pt) (u : Nat) : Prop :=
+  p ≠ q ∧ OnClosedSeg p q (s.A (2 * u)) ∧ OnClosedSeg p q (s.B (2 * u))
+/-- collinear and sharing more than a point -/
+def edgeOverlaps (p q : Pt) (u : Nat) : Prop :=
+  p ≠ q ∧ orient p q (s.A (2 * u)) = 0 ∧ orient p q (s.B (2 * u)) = 0 ∧
+  (OnOpenSeg p q (s.A (2 * u)) ∨ OnOpenSeg p q (s.B (2 * u)) ∨
+   OnOpenSeg (s.A (2 * u)) (s.B (2 * u)) p ∨ OnOpenSeg (s.A (2 * u)) (s.B (2 * u)) q ∨
+   (s.A (2 * u) = p ∧ s.B (2 * u) = q) ∨ (s.A (2 * u) = q ∧ s.B (2 * u) = p))
+
+instance (p q : Pt) (u : Nat) : Decidable (s.edgeCrossed p q u) := by unfold edgeCrossed; infer_instance
+instance (p q : Pt) (u : Nat) : Decidable (s.edgeTouchedByEnd p q u) := by unfold edgeTouchedByEnd; infer_instance
+instance (p q : Pt) (u : Nat) : Decidable (s.edgeFullyOverlapped p q u) := by unfold edgeFullyOverlapped; infer_instance
+instance (p q : Pt) (u : Nat) : Decidable (s.edgeOverlaps p q u) := by unfold edgeOverlaps; infer_instance
+
+def crossItems (l : List LItem) : List Nat := l.filterMap fun | .cross e => some e | _ => none
+def vertItems (l : List LItem) : List Nat := l.filterMap fun | .vert v => some v | _ => none
+def overlapItems (l : List LItem) : List Nat := l.filterMap fun | .overlap e => some e | _ => none
+
+/-- vertex items = the vertices on the closed segment, each once -/
+def LineVerticesOK (p q : Pt) (l : List LItem) : Prop :=
+  (vertItems l).Nodup ∧ (∀ v ∈ vertItems l, v < s.nV ∧ OnClosedSeg p q (s.P v) ∧ (p = q → s.P v = p)) ∧
+  (∀ v, v < s.nV → (if p = q then s.P v = p else OnClosedSeg p q (s.P v)) → v ∈ vertItems l)
+
+/-- crossing items ⊇ properly crossed edges, ⊆ those plus edges touched by an end point; each
+undirected edge once; directed so that `q` is not on the right -/
+def LineCrossOK (p q : Pt) (l : List LItem) : Prop :=
+  ((crossItems l).map (· / 2)).Nodup ∧
+  (∀ e ∈ crossItems l, e < s.nE ∧ (s.edgeCrossed p q (e / 2) ∨ s.edgeTouchedByEnd p q (e / 2)) ∧
+      0 ≤ orient (s.A e) (s.B e) q) ∧
+  (∀ u, u < s.nE / 2 → s.edgeCrossed p q u → u ∈ (crossItems l).map (· / 2))
+
+/-- overlap items ⊇ fully overlapped edges, ⊆ overlapping edges; pointing along the travel -/
+def LineOverlapOK (p q : Pt) (l : List LItem) : Prop :=
+  ((overlapItems l).map (· / 2)).Nodup ∧
+  (∀ e ∈ overlapItems l, e < s.nE ∧
+    (if p = q then OnOpenSeg (s.A e) (s.B e) p   -- zero length: an edge through the point may be classified either way
+     else s.edgeOverlaps p q (e / 2) ∧ 0 < dotFrom p q (s.B e) - dotFrom p q (s.A e))) ∧
+  (∀ u, u < s.nE / 2 → s.edgeFullyOverlapped p q u → u ∈ (overlapItems l).map (· / 2))
+
+/-- position of an item along `p → q` as an interval of rationals `(num, den)` with `den > 0` -/
+def itemSpan (p q : Pt) : LItem → (Int × Int) × (Int × Int)
+  | .vert v => ((dotFrom p q (s.P v), 1), (dotFrom p q (s.P v), 1))
+  | .overlap e => ((dotFrom p q (s.A e), 1), (dotFrom p q (s.B e), 1))
+  | .cross e =>
+    -- intersection parameter t = o_p / (o_p - o_q) with o_x = orient a b x; scaled by |q-p|²
+    let op := orient (s.A e) (s.B e) p
+    let oq := orient (s.A e) (s.B e) q
+    let den := op - oq
+    if den = 0 then ((0, 1), (0, 1))
+    else if den > 0 then ((op * dotFrom p q q, den), (op * dotFrom p q q, den))
+    else ((-op * dotFrom p q q, -den), (-op * dotFrom p q q, -den))
+
+def ratLe (a b : Int × Int) : Bool := a.1 * b.2 ≤ b.1 * a.2
+
+/-- items come in the order of increasing distance from `p` -/
+def LineOrderOK (p q : Pt) (l : List LItem) : Prop :=
+  (List.zip l (l.drop 1)).all fun pr => ratLe (s.itemSpan p q pr.1).2 (s.itemSpan p q pr.2).1
+
+instance (p q : Pt) (l : List LItem) : Decidable (s.LineVerticesOK p q l) := by unfold LineVerticesOK; infer_instance
+instance (p q : Pt) (l : List LItem) : Decidable (s.LineCrossOK p q l) := by unfold LineCrossOK; infer_instance
+instance (p q : Pt) (l : List LItem) : Decidable (s.LineOverlapOK p q l) := by unfold LineOverlapOK; infer_instance
+instance (p q : Pt) (l : List LItem) : Decidable (s.LineOrderOK p q l) := by unfold LineOrderOK; infer_instance
+
+def LineIterOK (p q : Pt) (l : List LItem) : Prop :=
+  s.LineVerticesOK p q l ∧ s.LineCrossOK p q l ∧ s.LineOverlapOK p q l ∧ s.LineOrderOK p q l
+
+instance (p q : Pt) (l : List LItem) : Decidable (s.LineIterOK p q l) := by unfold LineIterOK; infer_instance
+
+/-! ### C16 shapes -/
+
+def InRect (lo hi q : Pt) : Prop := lo.x ≤ q.x ∧ q.x ≤ hi.x ∧ lo.y ≤ q.y ∧ q.y ≤ hi.y
+instance (lo hi q : Pt) : Decidable (InRect lo hi q) := by unfold InRect; infer_instance
+
+/-- exact closed-segment / closed-box intersection: the bounding boxes overlap and the corners of
+the box are not all strictly on one side of the supporting line (separating axis test) -/
+def SegMeetsRect (lo hi a b : Pt) : Prop :=
+  lo.x ≤ hi.x ∧ lo.y ≤ hi.y ∧
+  min a.x b.x ≤ hi.x ∧ lo.x ≤ max a.x b.x ∧ min a.y b.y ≤ hi.y ∧ lo.y ≤ max a.y b.y ∧
+  ¬ (0 < orient a b lo ∧ 0 < orient a b hi ∧ 0 < orient a b ⟨lo.x, hi.y⟩ ∧ 0 < orient a b ⟨hi.x, lo.y⟩) ∧
+  ¬ (orient a b lo < 0 ∧ orient a b hi < 0 ∧ orient a b ⟨lo.x, hi.y⟩ < 0 ∧ orient a b ⟨hi.x, lo.y⟩ < 0)
+instance (lo hi a b : Pt) : Decidable (SegMeetsRect lo hi a b) := by unfold SegMeetsRect; infer_instance
+
+/-- exact closed-segment / closed-disk intersection (`r2` = squared radius) -/
+def SegMeetsDisk (c : Pt) (r2 : Int) (a b : Pt) : Prop :=
+  if dotFrom a b c ≤ 0 then dist2 a c ≤ r2
+  else if dotFrom a b b ≤ dotFrom a b c then dist2 b c ≤ r2
+  else orient a b c * orient a b c ≤ r2 * dotFrom a b b
+instance (c : Pt) (r2 : Int) (a b : Pt) : Decidable (SegMeetsDisk c r2 a b) := by unfold SegMeetsDisk; infer_instance
+
+/-- a reported set equals the expected set, without repetition -/
+def SetExactly (n : Nat) (expected : Nat → Prop) [DecidablePred expected] (got : List Nat) : Prop :=
+  got.Nodup ∧ (∀ x ∈ got, x < n ∧ expected x) ∧ (∀ x, x < n → expected x → x ∈ got)
+instance (n : Nat) (e : Nat → Prop) [DecidablePred e] (g : List Nat) : Decidable (SetExactly n e g) := by
+  unfold SetExactly; infer_instance
+
+/-- tolerant form for float-computed metrics: `got` lies between a must-set and a may-set -/
+def SetBetween (n : Nat) (must may : Nat → Prop) [DecidablePred must] [DecidablePred may] (got : List Nat) : Prop :=
+  got.Nodup ∧ (∀ x ∈ got, x < n ∧ may x) ∧ (∀ x, x < n → must x → x ∈ got)
+instance (n : Nat) (a b : Nat → Prop) [DecidablePred a] [DecidablePred b] (g : List Nat) :
+    Decidable (SetBetween n a b g) := by unfold SetBetween; infer_instance
+
+/-- rectangle edges up to an absolute slack `d` on every side (rounding of the float metric) -/
+def RectEdgesTolOK (lo hi : Pt) (d : Int) (got : List Nat) : Prop :=
+  SetBetween (s.nE / 2)
+    (fun u => SegMeetsRect ⟨lo.x + d, lo.y + d⟩ ⟨hi.x - d, hi.y - d⟩ (s.A (2 * u)) (s.B (2 * u)))
+    (fun u => SegMeetsRect ⟨lo.x - d, lo.y - d⟩ ⟨hi.x + d, hi.y + d⟩ (s.A (2 * u)) (s.B (2 * u))) got
+def CircVerticesTolOK (c : Pt) (r2 tol : Int) (got : List Nat) : Prop :=
+  SetBetween s.nV (fun v => dist2 (s.P v) c ≤ r2 - tol) (fun v => dist2 (s.P v) c ≤ r2 + tol) got
+def CircEdgesTolOK (c : Pt) (r2 tol : Int) (got : List Nat) : Prop :=
+  SetBetween (s.nE / 2) (fun u => SegMeetsDisk c (r2 - tol) (s.A (2 * u)) (s.B (2 * u)))
+    (fun u => SegMeetsDisk c (r2 + tol) (s.A (2 * u)) (s.B (2 * u))) got
+instance (lo hi : Pt) (d : Int) (g : List Nat) : Decidable (s.RectEdgesTolOK lo hi d g) := by unfold RectEdgesTolOK; infer_instance
+instance (c : Pt) (r t : Int) (g : List Nat) : Decidable (s.CircVerticesTolOK c r t g) := by unfold CircVerticesTolOK; infer_instance
+instance (c : Pt) (r t : Int) (g : List Nat) : Decidable (s.CircEdgesTolOK c r t g) := by unfold CircEdgesTolOK; infer_instance
+
+/-- largest absolute coordinate of the vertices and the given points -/
+def extent (pts : List Pt) : Int :=
+  let m := fun (acc : Int) (p : Pt) => max acc (max (p.x.natAbs : Int) (p.y.natAbs : Int))
+  s.pos.foldl m (pts.foldl m 0)
+
+def RectVerticesOK (lo hi : Pt) (got : List Nat) : Prop :=
+  SetExactly s.nV (fun v => InRect lo hi (s.P v)) got
+def RectEdgesOK (lo hi : Pt) (got : List Nat) : Prop :=
+  SetExactly (s.nE / 2) (fun u => SegMeetsRect lo hi (s.A (2 * u)) (s.B (2 * u))) got
+def CircVerticesOK (c : Pt) (r2 : Int) (got : List Nat) : Prop :=
+  SetExactly s.nV (fun v => dist2 (s.P v) c ≤ r2) got
+def CircEdgesOK (c : Pt) (r2 : Int) (got : List Nat) : Prop :=
+  SetExactly (s.nE / 2) (fun u => SegMeetsDisk c r2 (s.A (2 * u)) (s.B (2 * u))) got
+
+instance (lo hi : Pt) (g : List Nat) : Decidable (s.RectVerticesOK lo hi g) := by unfold RectVerticesOK; infer_instance
+instance (lo hi : Pt) (g : List Nat) : Decidable (s.RectEdgesOK lo hi g) := by unfold RectEdgesOK; infer_instance
+instance (c : Pt) (r : Int) (g : List Nat) : Decidable (s.CircVerticesOK c r g) := by unfold CircVerticesOK; infer_instance
+instance (c : Pt) (r : Int) (g : List Nat) : Decidable (s.CircEdgesOK c r g) := by unfold CircEdgesOK; infer_instance
+
+/-- exact location class of a point (used to classify failures and to judge weights):
+0 vertex, 1 edge, 2 face, 3 outside/none -/
+def locClass (q : Pt) : Nat × Nat :=
+  match (List.range s.nV).find? (fun v => s.P v == q) with
+  | some v => (0, v)
+  | none =>
+    match (List.range s.nE).find? (fun e => decide (OnOpenSeg (s.A e) (s.B e) q)) with
+    | some e => (1, e)
+    | none =>
+      match (List.range s.nF).find? (fun f => f != 0 &&
+          decide (StrictlyInsideTri (s.A (s.fe f)) (s.B (s.fe f)) (s.C (s.fe f)) q)) with
+      | some f => (2, f)
+      | none => (3, 0)
+
+end St
+
+open St (InRect SegMeetsRect SegMeetsDisk)
+
+/-! ### judging -/
+
+def scale1074 : Int := 2 ^ 1074
+
+def judgeLine (h : HCtx) (name : String) (p q : Pt) (items : List LItem) (ends : Option (Nat × Nat)) : List Fail :=
+  let s := h.cur
+  let collinear := decide (s.nF = 1)
+  let feat := fun (_ : Unit) =>
+    s!"collinear={if collinear then 1 else 0} nv={s.nV} zero={if p == q then 1 else 0} p={p} q={q} items={repr items}"
+  chk (decide (s.LineVerticesOK p q items)) "C17" "line-vertices-wrong" feat ++
+  chk (decide (s.LineCrossOK p q items)) "C17,C12" "line-crossings-wrong" feat ++
+  chk (decide (s.LineOverlapOK p q items)) "C17" "line-overlaps-wrong" feat ++
+  chk (decide (s.LineOrderOK p q items)) "C17" "line-order-wrong" feat ++
+  (match ends with
+   | some (a, b) =>
+     chk (items.head? == some (.vert a) && items.getLast? == some (.vert b)) "C17" "line-from-handles-ends"
+       (fun _ => s!"{name} a={a} b={b} items={repr items}")
+   | none => [])
+
+/-- hang signature of the line iterator (finding K3): collinear triangulation, `p` off the
+supporting line, `q` on that line but on no edge of the chain -/
+def lineHangClass (s : St) (p q : Pt) : String :=
+  if s.nF = 1 ∧ 2 ≤ s.nV then
+    let a := s.A 0
+    let b := s.B 0
+    if orient a b p ≠ 0 ∧ orient a b q = 0 ∧ decide (s.OffAllEdges q) then "collinear-offline-to-online-beyond"
+    else "collinear-other"
+  else "two-dimensional"
+
+def judgeExtra (hNew hOld : HCtx) (op res : Array String) (dump : Option St) : HCtx × List Fail :=
+  let name := op.getD 0 ""
+  let r0 := res.getD 0 ""
+  let s := hOld.cur
+  if hOld.tainted then (hNew, []) else
+  if r0 == "timeout" then
+    -- add the hang classification for operations with a segment / shape argument
+    match name with
+    | "line" | "isect" | "confp" =>
+      match parsePt (op.getD 1 "") (op.getD 2 ""), parsePt (op.getD 3 "") (op.getD 4 "") with
+      | some p, some q => (hNew, [⟨"C07,C17", "timeout-class", s!"hang={lineHangClass s p q} op={name}"⟩])
+      | _, _ => (hNew, [])
+    | "lineh" | "canadd" | "confv" | "con" | "trycon" | "consplit" =>
+      match parseNat (op.getD 1 ""), parseNat (op.getD 2 "") with
+      | some a, some b => (hNew, [⟨"C07,C17", "timeout-class", s!"hang={lineHangClass s (s.P a) (s.P b)} op={name}"⟩])
+      | _, _ => (hNew, [])
+    | _ => (hNew, [])
+  else if r0 == "panic" || r0 == "skip" || r0 == "unsupported" || r0 == "dead" then (hNew, []) else
+  match name with
+  | "line" =>
+    match parsePt (op.getD 1 "") (op.getD 2 ""), parsePt (op.getD 3 "") (op.getD 4 ""),
+          (res.toList.drop 1).mapM parseItem with
+    | some p, some q, some items => (hNew, judgeLine hOld name p q items none)
+    | _, _, _ => (hNew, [⟨"INTERNAL", "protocol", s!"line: {res.toList}"⟩])
+  | "lineh" =>
+    match parseNat (op.getD 1 ""), parseNat (op.getD 2 ""), (res.toList.drop 1).mapM parseItem with
+    | some a, some b, some items => (hNew, judgeLine hOld name (s.P a) (s.P b) items (some (a, b)))
+    | _, _, _ => (hNew, [⟨"INTERNAL", "protocol", s!"lineh: {res.toList}"⟩])
+  | "rectv" | "recte" =>
+    match parsePt (op.getD 1 "") (op.getD 2 ""), parsePt (op.getD 3 "") (op.getD 4 ""), natList res 1 with
+    | some lo, some hi, some got =>
+      let center : Pt := ⟨(lo.x + hi.x) / 2, (lo.y + hi.y) / 2⟩
+      let feat := fun (_ : Unit) =>
+        let exp : List Nat := if name == "rectv" then (List.range s.nV).filter (fun v => decide (InRect lo hi (s.P v)))
+          else (List.range (s.nE / 2)).filter (fun u => decide (SegMeetsRect lo hi (s.A (2 * u)) (s.B (2 * u))))
+        let missing := exp.filter (fun x => !got.contains x)
+        let extra := got.filter (fun x => !exp.contains x)
+        s!"kind={if !missing.isEmpty then "missing" else if !extra.isEmpty then "extra" else "dup"} center={if (s.locClass center).1 == 3 then "outside" else "inside"} collinear={if s.nF == 1 then 1 else 0} point={if lo == hi then 1 else 0} lo={lo} hi={hi} got={got} expected={exp}"
+      let bits := if hOld.scalar == "f32" then 16 else 38
+      let d := s.extent [lo, hi] / 2 ^ bits
+      if name == "rectv" then (hNew, chk (decide (s.RectVerticesOK lo hi got)) "C16" "rect-vertices-wrong" feat)
+      -- the edge metric divides (intersection parameters): exact tangency may round either way even
+      -- on integer grids, so edges are always judged up to the slack `d`
+      else (hNew, chk (decide (s.RectEdgesTolOK lo hi d got)) "C16" "rect-edges-wrong" feat)
+    | _, _, _ => (hNew, [⟨"INTERNAL", "protocol", s!"{name}: {res.toList}"⟩])
+  | "circv" | "circe" =>
+    match parsePt (op.getD 1 "") (op.getD 2 ""), parseCoord (op.getD 3 ""), natList res 1 with
+    | some c, some (.fin r2), some got =>
+      -- squared radius: coordinates are scaled by 2^1074, squared distances by 2^2148
+      let r2s := r2 * scale1074
+      let feat := fun (_ : Unit) =>
+        let exp : List Nat := if name == "circv" then (List.range s.nV).filter (fun v => decide (dist2 (s.P v) c ≤ r2s))
+          else (List.range (s.nE / 2)).filter (fun u => decide (SegMeetsDisk c r2s (s.A (2 * u)) (s.B (2 * u))))
+        let missing := exp.filter (fun x => !got.contains x)
+        let extra := got.filter (fun x => !exp.contains x)
+        s!"kind={if !missing.isEmpty then "missing" else if !extra.isEmpty then "extra" else "dup"} center={if (s.locClass c).1 == 3 then "outside" else "inside"} collinear={if s.nF == 1 then 1 else 0} c={c} got={got} expected={exp}"
+      let bits := if hOld.scalar == "f32" then 16 else 38
+      let ext := s.extent [c]
+      let tol := (r2s + ext * ext) / 2 ^ bits
+      if exactFam hOld.fam && name == "circv" then
+        (hNew, chk (decide (s.CircVerticesOK c r2s got)) "C16" "circle-vertices-wrong" feat)
+      else
+        if name == "circv" then (hNew, chk (decide (s.CircVerticesTolOK c r2s tol got)) "C16" "circle-vertices-wrong" feat)
+        else (hNew, chk (decide (s.CircEdgesTolOK c r2s tol got)) "C16" "circle-edges-wrong" feat)
+    | _, _, _ => (hNew, [⟨"INTERNAL", "protocol", s!"{name}: {res.toList}"⟩])
+  | _ => (hNew, [])
 
 end Spade
